@@ -36,4 +36,20 @@ BENIGN = [
         (M, "        self.c.len().saturating_sub(1)\n", "        self.c.len().checked_sub(1).unwrap_or(0)\n")]},
     {'id': 'B12-is_hybridized-matches', 'edits': [
         (M, "    pub fn is_hybridized(&self) -> bool {\n        match self {\n            Self::Hybridized { .. } => true,\n            Self::Classic { .. } => false,\n        }\n    }", "    pub fn is_hybridized(&self) -> bool {\n        matches!(self, Self::Hybridized { .. })\n    }")]},
+    {'id': 'B13-rename-params', 'all': True, 'edits': [
+        (P, "    rights: HashMap<Right, (EncryptionHint, AttributeStatus)>,\n) -> Result<(), Error> {", "    universe: HashMap<Right, (EncryptionHint, AttributeStatus)>,\n) -> Result<(), Error> {"),
+        (P, "    for (r, (hint, status)) in &rights {", "    for (r, (hint, status)) in &universe {"),
+        (P, "    msk.secrets.retain(|r| rights.contains_key(r));", "    msk.secrets.retain(|r| universe.contains_key(r));"),
+        (P, "    for (r, (hint, status)) in rights {\n        let is_activated", "    for (r, (hint, status)) in universe {\n        let is_activated"),
+        (M, "    fn random(rng: &mut impl CryptoRngCore, hybridize: bool) -> Result<Self, Error> {\n        let sk = <ElGamal as Nike>::SecretKey::random(rng);\n        if hybridize {",
+            "    fn random(rng: &mut impl CryptoRngCore, with_pq: bool) -> Result<Self, Error> {\n        let sk = <ElGamal as Nike>::SecretKey::random(rng);\n        if with_pq {"),
+        (M, "    fn refresh_id(&mut self, rng: &mut impl CryptoRngCore, id: UserId) -> Result<UserId, Error> {\n        if !self.is_known(&id) {\n            Err(Error::Tracing(\"unknown user\".to_string()))\n        } else if id.tracing_level() != self.tracing_level() {\n            let new_id = self.generate_user_id(rng)?;\n            self.add_user(new_id.clone());\n            self.del_user(&id);\n            Ok(new_id)",
+            "    fn refresh_id(&mut self, rng: &mut impl CryptoRngCore, uid: UserId) -> Result<UserId, Error> {\n        let id = uid;\n        if !self.is_known(&id) {\n            Err(Error::Tracing(\"unknown user\".to_string()))\n        } else if id.tracing_level() != self.tracing_level() {\n            let new_id = self.generate_user_id(rng)?;\n            self.add_user(new_id.clone());\n            self.del_user(&id);\n            Ok(new_id)"),
+    ]},
+    {'id': 'B14-rename-decaps-params', 'edits': [
+        (P, "fn c_decaps(\n    rng: &mut impl CryptoRngCore,\n    usk: &UserSecretKey,\n    A: &<ElGamal as Nike>::PublicKey,\n    c: &[<ElGamal as Nike>::PublicKey],\n    tag: &[u8; TAG_LENGTH],\n    encs: &Vec<[u8; SHARED_SECRET_LENGTH]>,\n) -> Result<Option<Secret<SHARED_SECRET_LENGTH>>, Error> {\n    let T = {\n        let mut hasher = Sha3::v256();\n        let mut T = Secret::<SHARED_SECRET_LENGTH>::new();\n        c.iter().try_for_each(|ck| {",
+            "fn c_decaps(\n    rng: &mut impl CryptoRngCore,\n    usk: &UserSecretKey,\n    A: &<ElGamal as Nike>::PublicKey,\n    traps: &[<ElGamal as Nike>::PublicKey],\n    early_abort_tag: &[u8; TAG_LENGTH],\n    masked_seeds: &Vec<[u8; SHARED_SECRET_LENGTH]>,\n) -> Result<Option<Secret<SHARED_SECRET_LENGTH>>, Error> {\n    let (c, tag, encs) = (traps, early_abort_tag, masked_seeds);\n    let T = {\n        let mut hasher = Sha3::v256();\n        let mut T = Secret::<SHARED_SECRET_LENGTH>::new();\n        c.iter().try_for_each(|ck| {")]},
+    {'id': 'B15-rename-helper-fns', 'all': True, 'edits': [
+        (P, "fn xor_2<", "fn xor_arrays<"), (P, "xor_2(&S,", "xor_arrays(&S,"),
+        (P, "fn shuffle<T>", "fn shuffle_in_place<T>"), (P, "shuffle(&mut", "shuffle_in_place(&mut")]},
 ]
